@@ -451,3 +451,16 @@ def _load_fixtures():
 
 
 FIXTURE_CLASSES = _load_fixtures()
+
+
+# ---------------------------------------------------------------- generated models
+def _load_generated():
+    from sim.pool import gen_models
+
+    mod, objs, classes = gen_models.load()
+    CLASSES.update(classes)
+    OBJS.update(objs)
+    return sorted(classes)
+
+
+GENERATED_CLASSES = _load_generated()
